@@ -138,8 +138,8 @@ func (b c20bounds) args() []int {
 	return nil
 }
 
-var c20ArgVals = []types.MalType{nil, 5, "s", types.List{Val: []types.MalType{1}}, types.Vector{Val: []types.MalType{2}}, ErrBoom}
-var c20ArgNames = []string{"nil", "5", `"s"`, "(1)", "[2]", "<go error>"}
+var c20ArgVals = []types.MalType{nil, 5, "s", types.List{Val: []types.MalType{1}}, types.Vector{Val: []types.MalType{2}}, ErrBoom, 1.5}
+var c20ArgNames = []string{"nil", "5", `"s"`, "(1)", "[2]", "<go error>", "1.5"}
 
 type c20config struct {
 	fn     int
@@ -228,7 +228,7 @@ func init() {
 		if vf.Tier == "thorough" {
 			// one more argument, two more kinds of value (bool, hash map)
 			maxLen = 5
-			if len(c20ArgVals) == 6 {
+			if len(c20ArgVals) == 7 {
 				c20ArgVals = append(c20ArgVals, true, types.HashMap{Val: map[string]types.MalType{"k": 1}})
 				c20ArgNames = append(c20ArgNames, "true", `{"k" 1}`)
 			}
@@ -259,7 +259,7 @@ func init() {
 		}
 		contract := &vf.Family{
 			Name:     "signature-x-bounds-x-args",
-			Bounds:   fmt.Sprintf("%d generated signatures (ctx or not; 0-2 fixed parameters of types int/string/MalType/List/Vector/error; variadic none/...MalType/...int/...error; results none/error/(MalType,error)/(int,error)) x declared bounds none/(m)/(m,M) for fixed<=m<=M<=3 x both registration entry points; each called with every argument list of length 0..4 over {nil, int, string, list, vector, Go error} (thorough: length 0..5, also a bool and a hash map); result/err/panic modes on a legal call", len(c20Table)),
+			Bounds:   fmt.Sprintf("%d generated signatures (ctx or not; 0-2 fixed parameters of types int/string/MalType/List/Vector/error; variadic none/...MalType/...int/...error; results none/error/(MalType,error)/(int,error)) x declared bounds none/(m)/(m,M) for fixed<=m<=M<=3 x both registration entry points; each called with every argument list of length 0..4 over {nil, int, string, list, vector, Go error, float} (thorough: length 0..5, also a bool and a hash map); result/err/panic modes on a legal call", len(c20Table)),
 			N:        func(string) int64 { return int64(len(cfgs)) },
 			Describe: descr,
 			Run: func(i int64, r *vf.Rec) {
